@@ -29,7 +29,6 @@ Definition ainit : astate :=
   {| a_chan := fun _ _ => []; a_ing := fun _ => []; a_blocked := fun _ => []; a_ing_blocked := fun _ => false;
      a_done := fun _ _ => []; a_sent := fun _ _ => []; a_snaps := fun _ => [] |}.
 
-Definition memb (a : nat) (l : list nat) : bool := existsb (Nat.eqb a) l.
 Definition is_edge (g : agraph) (a b : nat) : bool := existsb (fun p => Nat.eqb (fst p) a && Nat.eqb (snd p) b) (a_edges g).
 Definition upstream (g : agraph) (b : nat) : list nat := map fst (filter (fun p => Nat.eqb (snd p) b) (a_edges g)).
 Definition outs_to (g : agraph) (c t : nat) (e : event) : list event :=
